@@ -4,6 +4,16 @@ import json, sys
 from pathlib import Path
 V = Path(__file__).resolve().parent.parent
 src = json.loads((V / "tools/manifest_src.json").read_text())
+src["checks"] = {}
+for f in sorted((V / "tools/manifest_src.d").glob("C*.json")):
+    src["checks"][f.stem] = json.loads(f.read_text())
+# merge known findings
+kf = {"_comment": "Committed; never written at run time (merged from known_findings.d/*.json by tools/mkmanifest.py at development time). `findings`: genuine defects recorded but not repaired, identified by call site + guard + witness; a check prints KNOWN-FINDING for each one that still reproduces and still reports any OTHER violation. `fixed`: defects repaired by a `fix:` commit in /repo; they suppress nothing.", "findings": [], "fixed": []}
+for f in sorted((V / "known_findings.d").glob("C*.json")):
+    d = json.loads(f.read_text())
+    kf["findings"] += d.get("findings", [])
+    kf["fixed"] += d.get("fixed", [])
+(V / "known_findings.json").write_text(json.dumps(kf, indent=1) + "\n")
 props = [json.loads(l)["id"] for l in (V / "properties.jsonl").read_text().splitlines() if l.strip()]
 checks, na = [], []
 for pid in props:
